@@ -139,13 +139,6 @@ end Cstl.Hash
 namespace Cstl.Hash
 variable (hf : HashId → Nat → Nat → Nat)
 
-theorem R.Spec.with_val {α : Type} {m : R α} {P : Tr → α → Prop} (hm : m.Spec P) :
-    m.Spec (fun tr a => P tr a ∧ m.val = .ok a) := by
-  unfold R.Spec at hm ⊢
-  cases h : m.val with
-  | ok a => rw [h] at hm; exact ⟨hm, rfl⟩
-  | error e => rw [h] at hm; exact hm
-
 theorem absOf_sel (s : Sys) (tb : Bool) : (absOf s).sel tb = nodes (s.sel tb) := by
   cases tb <;> rfl
 
@@ -173,14 +166,15 @@ theorem SysInv.put_sub {s : Sys} (si : SysInv hf s) (tb : Bool) {t' : HT} (inv :
   · exact ⟨si.ia, inv, si.ka, fun n hn => si.kb n (hsub n hn), fun n hn m hm => si.disj n hn m (hsub m hm)⟩
 
 theorem step_refines {s : Sys} (si : SysInv hf s) (op : Op) (hv : Valid s op) :
-    (step hf s op).Spec (fun _ r => SysInv hf r.1 ∧ SpecStep (absOf s) (absOf r.1) op r.2) := by
+    (step hf s op).Spec (fun tr r => (SysInv hf r.1 ∧ SpecStep (absOf s) (absOf r.1) op r.2) ∧
+      ∀ c ∈ tr.calls, 1 ≤ c.m) := by
   cases op with
   | insert tb k e =>
     obtain ⟨hr, hfa, hfb⟩ := hv
     have hfresh : ∀ n ∈ nodes (s.sel tb), n.id ≠ e := by cases tb <;> assumption
     refine R.Spec.bind (insert_spec hf k e (si.sel hf tb) hr hfresh) ?_
-    rintro tr t' ⟨inv', hperm, _, _⟩
-    refine R.Spec.pure ⟨?_, ?_⟩
+    rintro tr t' ⟨inv', hperm, _, kg⟩
+    refine R.Spec.pure ⟨⟨?_, ?_⟩, by simpa using kg.pos⟩
     · cases tb
       · refine ⟨inv', si.ib, ?_, ?_, ?_⟩
         · intro n hn
@@ -213,9 +207,9 @@ theorem step_refines {s : Sys} (si : SysInv hf s) (op : Op) (hv : Valid s op) :
       · cases tb <;> rfl
   | find tb k acc =>
     refine R.Spec.bind (find_spec hf k acc (si.sel hf tb) hv) ?_
-    rintro tr ⟨t', r, offers⟩ ⟨inv', hperm, _, _, cands, hc, hok⟩
-    simp only at inv' hperm hc hok
-    refine R.Spec.pure ⟨si.put_sub hf tb inv' (fun n hn => hperm.subset hn), ?_, ?_, ?_⟩
+    rintro tr ⟨t', r, offers⟩ ⟨inv', hperm, _, kg, cands, hc, hok⟩
+    simp only at inv' hperm hc hok kg
+    refine R.Spec.pure ⟨⟨si.put_sub hf tb inv' (fun n hn => hperm.subset hn), ?_, ?_, ?_⟩, by simpa using kg.pos⟩
     · rw [absOf_put_sel, absOf_sel]; exact hperm
     · exact absOf_put_other s tb t'
     · exact ⟨r, offers, cands, rfl, by rw [absOf_sel]; exact hc, hok⟩
@@ -224,7 +218,7 @@ theorem step_refines {s : Sys} (si : SysInv hf s) (op : Op) (hv : Valid s op) :
       intro n hn hid
       rw [← hid]; exact (si.ksel hf tb n hn).symm
     refine R.Spec.bind (erase_spec hf (s.key e) e (si.sel hf tb) hv hkey) ?_
-    rintro tr t' ⟨inv', _, hno, hyes⟩
+    rintro tr t' ⟨inv', kg, hno, hyes⟩
     have hsub : ∀ n ∈ nodes t', n ∈ nodes (s.sel tb) := by
       intro n hn
       by_cases hex : ∃ m ∈ nodes (s.sel tb), m.id = e
@@ -233,7 +227,7 @@ theorem step_refines {s : Sys} (si : SysInv hf s) (op : Op) (hv : Valid s op) :
         exact this.symm.subset (List.mem_cons_of_mem _ hn)
       · have : ∀ m ∈ nodes (s.sel tb), m.id ≠ e := fun m hm hid => hex ⟨m, hm, hid⟩
         exact (hno this).1.subset hn
-    refine R.Spec.pure ⟨si.put_sub hf tb inv' hsub, absOf_put_other s tb t', ?_, ?_⟩
+    refine R.Spec.pure ⟨⟨si.put_sub hf tb inv' hsub, absOf_put_other s tb t', ?_, ?_⟩, by simpa using kg.pos⟩
     · intro h
       rw [absOf_put_sel]; rw [absOf_sel] at h ⊢
       exact (hno h).1
@@ -242,45 +236,54 @@ theorem step_refines {s : Sys} (si : SysInv hf s) (op : Op) (hv : Valid s op) :
       exact (hyes n hn hid).1
   | resize tb n f oracle =>
     refine R.Spec.bind (resize_spec hf oracle n f (si.sel hf tb)) ?_
-    rintro tr t' ⟨inv', hperm, _, _, _⟩
-    refine R.Spec.pure ⟨si.put_sub hf tb inv' (fun n hn => hperm.subset hn), ?_, absOf_put_other s tb t'⟩
+    rintro tr t' ⟨inv', hperm, _, _, _, pos⟩
+    refine R.Spec.pure ⟨⟨si.put_sub hf tb inv' (fun n hn => hperm.subset hn), ?_, absOf_put_other s tb t'⟩,
+      by simpa using pos⟩
     rw [absOf_put_sel, absOf_sel]; exact hperm
   | rehash tb =>
     refine R.Spec.bind (rehash_spec hf (si.sel hf tb)) ?_
-    rintro tr t' ⟨inv', _, _, _, _, hperm, _⟩
-    refine R.Spec.pure ⟨si.put_sub hf tb inv' (fun n hn => hperm.subset hn), ?_, absOf_put_other s tb t'⟩
+    rintro tr t' ⟨inv', _, _, _, _, hperm, _, _, _, hnop, hcalls⟩
+    have pos : ∀ c ∈ tr.calls, 1 ≤ c.m := by
+      intro c hc
+      by_cases hp : (s.sel tb).rhHash.isSome
+      · rw [hcalls c hc]; exact ((si.sel hf tb).pend hp).2.1
+      · have : tr = {} := (hnop (by simpa using hp)).2
+        rw [this] at hc; simp at hc
+    refine R.Spec.pure ⟨⟨si.put_sub hf tb inv' (fun n hn => hperm.subset hn), ?_, absOf_put_other s tb t'⟩,
+      by simpa using pos⟩
     rw [absOf_put_sel, absOf_sel]; exact hperm
   | shrink tb oracle =>
     refine R.Spec.bind (shrink_spec hf oracle (si.sel hf tb)) ?_
-    rintro tr t' ⟨inv', hperm, _⟩
-    refine R.Spec.pure ⟨si.put_sub hf tb inv' (fun n hn => hperm.subset hn), ?_, absOf_put_other s tb t'⟩
+    rintro tr t' ⟨inv', hperm, _, _, _, _, _, pos⟩
+    refine R.Spec.pure ⟨⟨si.put_sub hf tb inv' (fun n hn => hperm.subset hn), ?_, absOf_put_other s tb t'⟩,
+      by simpa using pos⟩
     rw [absOf_put_sel, absOf_sel]; exact hperm
   | swap =>
-    refine R.Spec.pure ⟨⟨si.ib, si.ia, si.kb, si.ka, fun n hn m hm h => si.disj m hm n hn h.symm⟩, rfl⟩
+    refine R.Spec.pure ⟨⟨⟨si.ib, si.ia, si.kb, si.ka, fun n hn m hm h => si.disj m hm n hn h.symm⟩, rfl⟩, by simp⟩
   | foreach tb visit =>
     refine R.Spec.bind (foreach_spec hf visit (si.sel hf tb)) ?_
-    rintro tr ⟨t', r, seen⟩ ⟨L, hL, hs, hr, inv', hp, _⟩
+    rintro tr ⟨t', r, seen⟩ ⟨L, hL, hs, hr, inv', hp, _, _, _, pos⟩
     simp only at hs hr inv' hp
     have hsub : ∀ n ∈ nodes t', n ∈ nodes (s.sel tb) := fun n hn =>
       hL.subset (hp.symm.subset (List.mem_append_right _ hn))
-    refine R.Spec.pure ⟨si.put_sub hf tb inv' hsub, absOf_put_other s tb t', L, ?_, ?_, ?_⟩
+    refine R.Spec.pure ⟨⟨si.put_sub hf tb inv' hsub, absOf_put_other s tb t', L, ?_, ?_, ?_⟩, by simpa using pos⟩
     · rw [absOf_sel]; exact hL
     · show Out.visited r seen = _
       rw [hs, hr]
     · rw [absOf_put_sel]; exact hp
   | foreachConst tb visit =>
     refine R.Spec.bind (foreachConst_spec hf visit (si.sel hf tb)) ?_
-    rintro tr ⟨r, seen⟩ ⟨hs, hr, _⟩
+    rintro tr ⟨r, seen⟩ ⟨hs, hr, _, pos⟩
     simp only at hs hr
-    refine R.Spec.pure ⟨si, rfl, nodes (s.sel tb), by rw [absOf_sel], ?_⟩
+    refine R.Spec.pure ⟨⟨si, rfl, nodes (s.sel tb), by rw [absOf_sel], ?_⟩, by simpa using pos⟩
     show Out.visited r seen = _
     rw [hs, hr]
   | clear tb withCb =>
     refine R.Spec.bind (clear_spec hf withCb (si.sel hf tb)) ?_
-    rintro tr ⟨t', seen⟩ ⟨hs, inv', _, _, _, _, _, hn, _⟩
+    rintro tr ⟨t', seen⟩ ⟨hs, inv', _, _, _, _, _, hn, _, pos⟩
     simp only at hs inv' hn
-    refine R.Spec.pure ⟨si.put_sub hf tb inv' (fun n hn' => by rw [hn] at hn'; simp at hn'),
-      absOf_put_other s tb t', by rw [absOf_put_sel]; exact hn, seen, rfl, ?_, ?_⟩
+    refine R.Spec.pure ⟨⟨si.put_sub hf tb inv' (fun n hn' => by rw [hn] at hn'; simp at hn'),
+      absOf_put_other s tb t', by rw [absOf_put_sel]; exact hn, seen, rfl, ?_, ?_⟩, by simpa using pos⟩
     · intro h; rw [hs, h, absOf_sel]; exact List.Perm.refl _
     · intro h; rw [hs, h]; rfl
 
@@ -300,20 +303,27 @@ leaves its range, see C17) or the invariant holds at the end and the answers
 and final contents are those of the multiset specification.  It never reads
 or writes outside the bucket array. -/
 theorem run_refines_from : ∀ (ops : List Op) (s : Sys), SysInv hf s → ValidFrom hf s ops →
-    (run hf s ops).Spec (fun _ r => SysInv hf r.1 ∧ SpecRun (absOf s) ops r.2 (absOf r.1))
-  | [], s, si, _ => R.Spec.pure ⟨si, rfl⟩
+    (run hf s ops).Spec (fun tr r => (SysInv hf r.1 ∧ SpecRun (absOf s) ops r.2 (absOf r.1)) ∧
+      ∀ c ∈ tr.calls, 1 ≤ c.m)
+  | [], s, si, _ => R.Spec.pure ⟨⟨si, rfl⟩, by simp⟩
   | op :: ops, s, si, hv => by
     show (step hf s op >>= fun r => run hf r.1 ops >>= fun r' => pure (r'.1, r.2 :: r'.2)).Spec _
     refine R.Spec.bind (R.Spec.with_val (step_refines hf si op hv.1)) ?_
-    rintro tr r ⟨⟨si1, sp1⟩, hval⟩
+    rintro tr r ⟨⟨⟨si1, sp1⟩, pos1⟩, hval⟩
     have hv' := hv.2 r.1 r.2 hval
     refine R.Spec.bind (run_refines_from ops r.1 si1 hv') ?_
-    rintro tr2 r' ⟨si2, sp2⟩
-    exact R.Spec.pure ⟨si2, absOf r.1, sp1, sp2⟩
+    rintro tr2 r' ⟨⟨si2, sp2⟩, pos2⟩
+    refine R.Spec.pure ⟨⟨si2, absOf r.1, sp1, sp2⟩, ?_⟩
+    intro c hc
+    simp only [Tr.append_calls, Tr.empty_calls, List.append_nil, List.mem_append] at hc
+    rcases hc with h | h
+    · exact pos1 c h
+    · exact pos2 c h
 
 /-- the same from the initial state (both tables as left by `cstl_hash_init`) -/
 theorem run_refines (ops : List Op) (hv : ValidFrom hf Sys.init ops) :
-    (run hf Sys.init ops).Spec (fun _ r => SysInv hf r.1 ∧ SpecRun (absOf Sys.init) ops r.2 (absOf r.1)) :=
+    (run hf Sys.init ops).Spec (fun tr r => (SysInv hf r.1 ∧ SpecRun (absOf Sys.init) ops r.2 (absOf r.1)) ∧
+      ∀ c ∈ tr.calls, 1 ≤ c.m) :=
   run_refines_from hf ops Sys.init (Sys.init_inv hf) hv
 
 end Cstl.Hash
